@@ -16,7 +16,7 @@ TRACE_CFG = "PurityTrace.cfg"
 GROUP_KEY = "group"
 RULE = ("for each source (generated rich UFOs / families, fixtures of tests/data) every call history (single call; twice; "
         "TTF then OTF and the reverse; static then variable; inplace; layout-heavy sources with writer options and sources with "
-        "lib-selected filters -- PropagateAnchors on ligature marks with curved components -- through one compileTTF) is run in FRESH subprocesses under PYTHONHASHSEED in "
+        "lib-selected filters / designspaces whose variable fonts carry public.fontInfo overrides -- PropagateAnchors on ligature marks with curved components -- through one compileTTF) is run in FRESH subprocesses under PYTHONHASHSEED in "
         "{0,1,2,3,17,101} x {defcon, ufoLib2} x {in memory, saved and reopened}; sha256 of the saved bytes is logged per call and "
         "TLC rebuilds the memo (function, options \\ inplace, content-before) -> digest over the union of all processes' logs; "
         "non-trivial = a key observed in at least two different environments; distinct by (source, function, options, env)")
@@ -86,6 +86,13 @@ def cases(tier, seed):
         sources.append(("ufo", {"kind": "ufo", "ufo": c["ufo"]}, f"gen-propagate-{k}"))
     for k in range(1 if tier == "quick" else 8):
         sources.append(("ds", {"kind": "family", "family": gen.rich_family(rng, n_masters=rng.choice([2, 3]))}, f"gen-fam-{k}"))
+    for k in range(1 if tier == "quick" else 6):
+        fam = gen.rich_family(rng, n_masters=2)
+        fam["variableFonts"] = [{"name": "PlainVF"}, {"name": "NamedVF", "lib": {"public.fontInfo": {
+            "familyName": "Renamed Family", "versionMajor": 3, "openTypeOS2VendorID": "ABCD"}}}]
+        if k % 2:
+            fam["variableFonts"].reverse()
+        sources.append(("ds", {"kind": "family", "family": fam}, f"gen-faminfo-{k}"))
     fx_u = ["TestFont.ufo", "ColorTest.ufo", "TestMathFont-Regular.ufo"] if tier == "quick" else \
         [os.path.basename(p) for p in sorted(glob.glob(os.path.join(c07.DATA, "*.ufo")))]
     for u in fx_u:
@@ -100,6 +107,9 @@ def cases(tier, seed):
         hists = UFO_HISTORIES if kind == "ufo" else DS_HISTORIES
         if sid.startswith("gen-layout") or sid.startswith("gen-propagate"):
             hists = [[("compileTTF", {})]]
+        elif sid.startswith("gen-faminfo"):
+            hists = [[("compileVariableTTFs", {}), ("compileVariableTTFs", {})], [("compileVariableTTFs", {}), ("compileInterpolatableTTFsFromDS", {})],
+                     [("compileInterpolatableTTFsFromDS", {})], [("compileVariableCFF2s", {}), ("compileVariableTTFs", {})]]
         elif tier == "quick":
             hists = rng.sample(hists, 4)
         for hi, h in enumerate(hists):
@@ -107,6 +117,8 @@ def cases(tier, seed):
             # every history is run in >= 3 environments (quick) / all (thorough)
             if sid.startswith("gen-layout"):
                 chosen = [(hs, "ufoLib2", "memory") for hs in ["0", "1", "2", "3", "5", "17", "101", "4242"]] + [(seeds[0], "defcon", "disk")]
+            elif sid.startswith("gen-faminfo"):
+                chosen = [(seeds[0], "ufoLib2", "memory"), (seeds[1], "defcon", "memory"), (seeds[0], "ufoLib2", "disk")]
             elif sid.startswith("gen-propagate"):
                 chosen = [(seeds[0], "ufoLib2", "memory"), (seeds[0], "defcon", "memory"), (seeds[1], "defcon", "disk"), (seeds[1], "ufoLib2", "disk")]
             else:
